@@ -25,10 +25,14 @@ def consume(tk, frames, mode):
     return out, src
 
 
-def harness(core, N, mode, with_init):
+def harness(core, N, mode, with_init, falsy=False):
     def path(e):
         P = tok.sym_params(e, with_init)
         frames = tok.sym_frames(N)
+        if falsy:
+            # "frames" that are falsy objects (0, b"", an empty list would be): frames like any other, not the end of the stream
+            frames = [tok.FalsyFrame(f.pos, f.valid) if (falsy is True or i % 2) else f for i, f in enumerate(frames)]
+        xtra = {"falsy": falsy} if falsy else None
         V = [tobool(f.valid) for f in frames]
         mx, ms = P["mx"], P["ms0"]
         conds = {}
@@ -42,7 +46,7 @@ def harness(core, N, mode, with_init):
         except Exception as ex:
             m = e.model()
             return {"status": "cex", "failing": ["raised %s" % type(ex).__name__],
-                    "cex": tok.cex_from_model(m, N, P, mode, with_init) if m is not None else None}
+                    "cex": tok.cex_from_model(m, N, P, mode, with_init, xtra) if m is not None else None}
         # (i) hand-over moment
         for k, ((data, s, en), reads, nones) in enumerate(gen):
             L = len(data)
@@ -77,7 +81,7 @@ def harness(core, N, mode, with_init):
                     else:
                         ok = ok and s == T[k][0] and (en == T[k][1] or (nones == 1 and en <= T[k][1]))
             conds[("prefix", p)] = ok
-        r = tok.discharge(e, conds, lambda m: tok.cex_from_model(m, N, P, mode, with_init))
+        r = tok.discharge(e, conds, lambda m: tok.cex_from_model(m, N, P, mode, with_init, xtra))
         r["tokens"] = len(gen)
         return r
     return path
@@ -86,7 +90,8 @@ def harness(core, N, mode, with_init):
 def concrete_failures(c):
     ak = loader.real_auditok()
     v, N = c["valid"], len(c["valid"])
-    frames = [oracles.CFrame(i, b) for i, b in enumerate(v)]
+    fz = c.get("falsy")
+    frames = [(oracles.CFalsyFrame if (fz is True or (fz and i % 2)) else oracles.CFrame)(i, b) for i, b in enumerate(v)]
 
     def mk():
         return ak.StreamTokenizer(lambda f: f.valid, c["min_length"], c["max_length"], c["mcs"], init_min=c.get("init_min", 0),
@@ -171,6 +176,11 @@ def run(rep):
             ex = explore(harness(core, N, mode, with_init))
             rep.add_exploration(hn, ex, bounds={"frames": N, "prefixes": N, "mode": mode, "initial_phase_symbolic": with_init})
             tok.handle_cex(rep, hn, ex, replay_fn)
+    for falsy in (True, "odd positions"):
+        hn = "online[N<=%d,mode=0,noinit,%s]" % (min(b["N"], 4), "all frames falsy objects" if falsy is True else "every other frame a falsy object")
+        ex = explore(harness(core, min(b["N"], 4), 0, False, falsy))
+        rep.add_exploration(hn, ex)
+        tok.handle_cex(rep, hn, ex, replay_fn)
     try:
         from . import c08_split
     except ImportError:
